@@ -14,7 +14,8 @@ LEVEL = "fault_enumeration"
 ENGINE = "E3 stack"
 TECHNIQUE = ("deterministic simulation with fault enumeration: a dry run records every wire event of each scripted workload; every failure kind is then "
              "injected before and after every recorded event on the real stack in virtual time; seeded runs add injection exactly at pending timer "
-             "deadlines with tape-chosen ordering/batching of the coinciding loop callbacks")
+             "deadlines with tape-chosen ordering/batching of the coinciding loop callbacks"
+             ' The whole-stack soak (dst/soak.py: one ControllerApplication object through several connect/traffic/failure/reconnect epochs) is a further seeded scenario of this check.')
 LEVEL_TEXT = ("complete sweep of failure kind {ERROR(code), unsolicited RSTACK(code != software), silent NCP, connection_lost(exc), EOF, deliberate close} x "
               "injection point {before, after} every wire event of five scripted workloads (idle, one command in flight, one in flight + three queued, "
               "reset in progress, start-up reset on a socket path), each event in its own loop iteration; seeded runs inject at timer deadlines with "
@@ -70,11 +71,22 @@ def plan(tier):
                     # the callers give up (are cancelled) while the link layer is still retrying: the failure must be reported all the same
                     for ca in (2.0, 12.0):
                         sweeps.append(("inject", {"workload": w, "kind": kind, "code": None, "at": at, "sched": False, "cancel_after": ca}))
+    # directed timer ties: the failure lands exactly on a pending deadline (reset timeout, command timeout, ACK timeout) and both
+    # callbacks run in ONE loop iteration, in either order (this is the schedule on which F5 fired)
+    for w in ("reset", "startup", "one", "queued"):
+        for kind, code in (("lost", None), ("eof", None), ("error", ERR_CODES[0]), ("rstack", RST_CODES[0])):
+            for idx in range(3):
+                for order in (0, 1):
+                    sweeps.append(("inject", {"workload": w, "kind": kind, "code": code, "at": ["timer", idx], "sched": {"batch": 1, "join": 1, "order": order}}))
+                    if w in ("reset", "startup") and idx == 0:
+                        # an NCP that takes longer than the reset timeout to answer the RST: the failure coincides with the 5 s reset timeout itself
+                        sweeps.append(("inject", {"workload": w, "kind": kind, "code": code, "at": ["timer", idx], "rst_delay": 6.0,
+                                                  "sched": {"batch": 1, "join": 1, "order": order}}))
     return {
         "sweeps": sweeps,
         "exhaustive": f"failure kind x code x {npts} injection instants (just before/after every wire event of the 5 scripted workloads), each event in its own loop iteration",
-        "random": [("random", {}, 3), ("threaded", {}, 1), ("faulty", {}, 1)],
-        "runs": 1600 if tier == "quick" else None,
+        "random": [("random", {}, 3), ("threaded", {}, 1), ("faulty", {}, 1), ("soak", {}, 1)],
+        "runs": 1900 if tier == "quick" else None,
         "budget_s": 60 if tier == "quick" else 900,
         "batch": 25,
         "sweep_batch": 40,
@@ -82,11 +94,17 @@ def plan(tier):
 
 
 def run(scenario, params, tape, detail=False):
+    if scenario == "soak":
+        # the whole-stack soak (dst/soak.py): one application object through several connection epochs with traffic, failures and
+        # reconnects; this check reports the clauses of its own property from it
+        from .. import soak
+
+        return soak.run(params, tape, detail=detail)
     if scenario == "threaded":
         return run_threaded_one(params, tape, detail)
     if scenario == "inject":
         return run_one(params["workload"], params["kind"], params["code"], params["at"], tape, params.get("sched", True), detail, cancel_after=params.get("cancel_after"),
-                       prefail=params.get("prefail", False))
+                       prefail=params.get("prefail", False), rst_delay=params.get("rst_delay", 0.3))
     w = WORKLOADS[tape.draw(len(WORKLOADS), "workload")]
     kind = KINDS[tape.draw(len(KINDS), "kind")]
     code = None
@@ -101,7 +119,7 @@ def run(scenario, params, tape, detail=False):
 CANCEL_AFTER = (0.3, 1.0, 2.5, 6.0, 11.0, 13.0)
 
 
-def run_one(workload, kind, code, at, tape, sched, detail, dry=False, faulty=False, cancel_after=None, prefail=False):
+def run_one(workload, kind, code, at, tape, sched, detail, dry=False, faulty=False, cancel_after=None, prefail=False, rst_delay=0.3):
     sock = workload == "startup"
     if faulty:
         # link faults (and read chunking, NCP window) until the injection; the failure itself is then delivered over a clean line
@@ -239,7 +257,7 @@ def run_one(workload, kind, code, at, tape, sched, detail, dry=False, faulty=Fal
             tracked("getValue", ez.getValue(valueId=t.EzspValueId.VALUE_FREE_BUFFERS))
             tracked("nop", ez.nop())
         elif workload == "reset":
-            nash.rst_delay = 0.3
+            nash.rst_delay = rst_delay
 
             async def reset_then_version():
                 await ez.reset()
@@ -247,7 +265,7 @@ def run_one(workload, kind, code, at, tape, sched, detail, dry=False, faulty=Fal
 
             tracked("reset", reset_then_version())
         elif workload == "startup":
-            nash.rst_delay = 0.3
+            nash.rst_delay = rst_delay
 
             async def app_reset():
                 ez.stop_ezsp()
